@@ -27,16 +27,22 @@ psutil_users(PyObject *self, PyObject *args) {
         if (ut->ut_type != USER_PROCESS)
             continue;
         py_tuple = NULL;
-        py_username = PyUnicode_DecodeFSDefault(ut->ut_user);
+        // ut_user, ut_line and ut_host are fixed-width char arrays which
+        // are NOT NUL-terminated when the value fills the whole field:
+        // never read them past their size.
+        py_username = PyUnicode_DecodeFSDefaultAndSize(
+            ut->ut_user, strnlen(ut->ut_user, sizeof(ut->ut_user)));
         if (! py_username)
             goto error;
-        py_tty = PyUnicode_DecodeFSDefault(ut->ut_line);
+        py_tty = PyUnicode_DecodeFSDefaultAndSize(
+            ut->ut_line, strnlen(ut->ut_line, sizeof(ut->ut_line)));
         if (! py_tty)
             goto error;
         if (strcmp(ut->ut_host, ":0") == 0 || strcmp(ut->ut_host, ":0.0") == 0)
             py_hostname = PyUnicode_DecodeFSDefault("localhost");
         else
-            py_hostname = PyUnicode_DecodeFSDefault(ut->ut_host);
+            py_hostname = PyUnicode_DecodeFSDefaultAndSize(
+                ut->ut_host, strnlen(ut->ut_host, sizeof(ut->ut_host)));
         if (! py_hostname)
             goto error;
 
